@@ -36,6 +36,7 @@ type Options struct {
 	Vanish       map[string]string  // key -> "dump" | "pttl": the key disappears right before that command
 	FailCommands map[string]string  // lower-case command name -> error text
 	FailKeys     map[string]string  // RESTORE of this key -> error text
+	RejectAuth   bool               // AUTH -> -ERR invalid password (commands are served all the same)
 }
 
 type Event struct {
@@ -215,6 +216,9 @@ func (s *Server) exec(st *connState, args [][]byte) string {
 	case "ping":
 		return "+PONG\r\n"
 	case "auth":
+		if s.Opts.RejectAuth {
+			return "-ERR invalid password\r\n"
+		}
 		return "+OK\r\n"
 	case "select":
 		n, err := strconv.Atoi(string(args[1]))
